@@ -3,6 +3,7 @@ from .common import pyvc_units, frame_unit, RECK_FILES
 LEVEL = "other"
 MODULES = ["vf.contracts.c_reck"]
 EXPLANATION = ('Clause table. PROVED unbounded (pyvc, z3-nlsat): bs_matrix is the identity outside the two modes and its 2x2 block is unitary for all theta, phi, mode pairs and sizes; TopHat.value lies within its bounds; Gaussian.value lies within its bounds whenever the resampling loop exits (partial correctness). BOUNDED (native floats, tolerance 1e-12, observed worst 1e-15 - the property is stated to numerical precision): Reck().map reproduces 106 structured unitaries (identity, every permutation up to 4 modes, phased permutations, block-diagonal, sparse, DFT, nearly-zero couplings of either sign from 1e-6 down to 1e-14 on 3 and 4 modes, Haar up to 6 modes) with adjacent beam splitters and phase shifters only, all phases in [0, 2 pi), heralds (5 layouts incl. crossed) kept, original unchanged; with two error models and ten stand-alone distributions (one-sided bounds, bounds equal to 0) every drawn value is inside its declared bounds, equal seeds give equal circuits, the result is a valid sub-unitary circuit. NOT under contract: reck_decomposition / Reck.map loops (bounded only). ADDED LATER (bounded): one Reck object used again after the same circuit object was changed in place. PROVED LATER (pyvc): Gaussian.__init__ / TopHat.__init__ store the declared bounds (a bound of 0 is a bound; a missing bound is +-infinity) and raise ValueError iff max < min.')
+EXPLANATION = EXPLANATION + ' ADDED IN ROUNDS 5-8. BOUNDED (native): freshly created identical error models give identical circuits for a seed; a default Reck() is ideal whatever was done to another one; lossless circuits holding zero-valued loss elements, barriers, swaps, groups; 1- and 2-mode circuits.'
 ASSUMPTIONS = ["A4.rng: numpy Generator.random() in [0,1), normal() real; seeded => deterministic", "bounded part in native floats, tolerance 1e-12 (the property is stated to numerical precision)"]
 TRUSTED = ["z3 5.1 (nlsat)", "Lean 4.33 kernel + Mathlib (lemma M3 is kernel-checked on every run)"]
 
